@@ -157,6 +157,9 @@ def check(ctx):
     check_packet_init(ctx)
     check_inits(ctx)
     check_concatenation(ctx)
+    # Round 9 (supplement): a field conditioned on an optional field parses what it packed (C08 g)
+    from .c08 import check_truth_before_length
+    check_truth_before_length(ctx, rule='R2-condition-truth')
     from .c01 import check_driver_symmetry
     check_driver_symmetry(ctx)
     check_fill_and_buffer(ctx)
